@@ -30,7 +30,10 @@ func (e *Engine) branch(f func()) {
 					e.genError("%s", x.reason)
 				}
 			default:
-				panic(r)
+				if os.Getenv("GOVC_DEBUG") != "" {
+					panic(r)
+				}
+				e.genError("internal generator error: %v", r)
 			}
 		}
 	}()
@@ -103,6 +106,11 @@ func (e *Engine) constVal(st *State, c *ssa.Const) Val {
 	case constant.String:
 		return scalar(tb.Int(e.strID(constant.StringVal(c.Value))))
 	case constant.Float:
+		if iv := constant.ToInt(c.Value); iv.Kind() == constant.Int {
+			if bi, ok := new(big.Int).SetString(iv.ExactString(), 10); ok {
+				return scalar(tb.App("floatconst", SInt, tb.BigInt(bi)))
+			}
+		}
 		return scalar(tb.App("floatlit_"+sanitize(c.Value.ExactString()), SInt))
 	}
 	panic(e.unsupported("constant kind " + c.Value.Kind().String()))
@@ -884,17 +892,18 @@ func (e *Engine) sliceOp(st *State, x *ssa.Slice) Val {
 		var arr *Term
 		switch px.Kind {
 		case PLocal:
-			if px.Path != "" || px.Elem >= 0 {
-				panic(e.unsupported("slice of array nested in a local aggregate"))
+			if px.Path == "" && px.Elem < 0 {
+				arr = e.spill(st, px.Cell)
+				break
 			}
-			arr = e.spill(st, px.Cell)
+			fallthrough
 		case PField, PElem, PGlobal:
 			// array stored in the heap as an opaque token: produce a read-only view with unknown contents tied to the token
 			tok := e.loadPx(st, px, bt.Elem()).T[0]
 			arr = e.newRef(st)
 			e.assume(st, tb.Eq(tb.App("viewtok_"+typeKey(bt.Elem()), SInt, arr), tok))
 			st.Ghost["view:"+fmt.Sprint(arr.ID)] = tok
-			e.viewOrigins[arr.ID] = viewOrigin{px: *px, T: bt.Elem()}
+			st.Views[arr.ID] = viewOrigin{px: *px, T: bt.Elem()}
 			// element values are functions of the token
 			el := at.Elem()
 			if len(Leaves(el)) == 1 && Leaves(el)[0].Sort == SInt {
